@@ -134,3 +134,10 @@ extend("C16", "component access on arrays of 0..300 elements per integer width",
 extend("C17", "component access on arrays of 0..300 elements per integer width", "The width sweep includes `.` (component access) with arrays longer than the largest i8 / i16.")
 extend("C18", "uncompiled flat form", "All families also run on FlatExVal::parse_wo_compile expressions.")
 extend("C20", "a 270-level shared deep expression; two factory types with the same type name", "Bodies also share one 270-level deep expression between threads, and use two operator factories whose types have the same name (sibling blocks) with different operator order.")
+extend("C03", "operator listings of derived expressions", "Every expression a conversion history ends in has its three operator listings judged against its own printed text (sorted, nothing absent from the text, every operator applied to a variable-dependent operand).")
+extend("C06", "differentiate-every-variable families", "Families of texts with an operator inside a nested group over some of the variables are differentiated with respect to every variable (strict, three relaxed modes, second order, mixed pairs) as flat, uncompiled, deep and converted expressions over f64, f32 and the value type.")
+extend("C08", "calls below 126..513 (thorough ..1030) enclosing parentheses / unary functions", "Deep families put calls whose operator binds tighter than the operator following a grouped argument below 126..513 enclosing levels.")
+extend("C09", "partial_iter driven by iterators without exact size hint", "In every state partial_iter is also driven by filter, from_fn, take_while and flat_map iterators (valid and out-of-range sequences).")
+extend("C11", "uncompiled flat form of base and replacements", "Bases that contain a literal are also explored as parse_wo_compile expressions with uncompiled replacements.")
+extend("C18", "piecewise expressions below two stacked unary operators", "A slice of the relaxed-mode family sits below two stacked unary operators (a deep level that consists of one nested level).")
+extend("C20", "index-aligned 18-operator levels read by two factories; violations carry the failing schedule", "Two texts with 18 binary operators on one level have the same operator-index sequence under the two factories (other names, other priorities); every violation of a schedule body records the choice prefix under which it was first seen, and verif replay re-runs it.")
